@@ -43,6 +43,10 @@ fn checked_quotient(ctx: &mut Ctx, f: &mut LOH, round: usize) -> Result<bool, Vi
     // hypergraph-level quotient on a copy
     let mut hcopy = f.hypergraph.clone();
     let hr = hcopy.quotient();
+    // the deprecated alias of the open-hypergraph quotient, on another copy
+    let mut acopy = f.clone();
+    #[allow(deprecated)]
+    let ar = acopy.quotient_witness();
 
     match f.quotient() {
         Ok(q) => {
@@ -76,6 +80,7 @@ fn checked_quotient(ctx: &mut Ctx, f: &mut LOH, round: usize) -> Result<bool, Vi
             // the hypergraph-level call did the same to the hypergraph
             ensure!(ctx, hcopy == f.hypergraph, "quotient-rewrites", "round {round}: Hypergraph::quotient and OpenHypergraph::quotient disagree on the hypergraph");
             ensure!(ctx, hr.as_ref().ok().map(|x| x.table.0.clone()) == Some(qt.clone()), "quotient-map", "round {round}: the two quotient calls return different maps");
+            ensure!(ctx, ar.is_ok() && acopy == *f, "quotient-rewrites", "round {round}: quotient_witness (alias) leaves a different diagram than quotient: sources {:?} targets {:?}", acopy.sources, acopy.targets);
             // idempotence
             ctx.sub("quotient-idempotent");
             let snap = f.clone();
@@ -105,6 +110,7 @@ fn checked_quotient(ctx: &mut Ctx, f: &mut LOH, round: usize) -> Result<bool, Vi
                 f.hypergraph.quotient
             );
             ensure!(ctx, hcopy == before_lib.hypergraph, "failed-quotient-is-atomic", "round {round}: a failed Hypergraph::quotient changed the hypergraph: nodes {:?}", hcopy.nodes);
+            ensure!(ctx, ar.is_err() && acopy == before_lib, "failed-quotient-is-atomic", "round {round}: quotient_witness (alias) behaves differently on a conflict");
             Ok(false)
         }
     }
